@@ -14,4 +14,12 @@ PH(b) == [k |-> "ProcessHeader", b |-> b]
 ThreadsA == {1, 2, 3}
 ProgA == (1 :> <<PB(4), PB(7)>> @@ 2 :> <<PB(6), PB(5)>> @@ 3 :> <<PH(5), PB(6)>>)
 ProgB == (1 :> <<PB(7), PB(4)>> @@ 2 :> <<PB(5), PB(6)>> @@ 3 :> <<PB(4), PB(7)>>)
+\* orphan pool of capacity 2: a line 4-5-6-7 on the trunk, headers announced by thread 1, bodies delivered from the
+\* far end: 7, 6, 5 pile up in the pool (the third insertion evicts), 4 connects whatever is left
+TreeE == (0 :> Blk(0, 0, 1, NoTx) @@ 1 :> Blk(0, 1, 1, NoTx) @@ 2 :> Blk(1, 2, 1, NoTx) @@ 3 :> Blk(2, 3, 1, NoTx)
+          @@ 4 :> Blk(3, 4, 1, NoTx) @@ 5 :> Blk(4, 5, 1, NoTx) @@ 6 :> Blk(5, 6, 1, NoTx) @@ 7 :> Blk(6, 7, 1, NoTx))
+ProgE == (1 :> <<PH(4), PH(5), PH(6), PH(7), PB(7)>> @@ 2 :> <<PB(6), PB(5)>> @@ 3 :> <<PB(4)>>)
+\* vacuity probe (expected to be VIOLATED under MC_ChainConc_evict_probe.cfg): block 7 was answered "orphan" and has
+\* been evicted - it is neither in the pool nor stored when everything is done
+NeverEvicted == ~(AllDone /\ 7 \notin n.bodies /\ ~(\E i \in 1..Len(n.orph) : n.orph[i] = 7) /\ results[1][5] = "orphan")
 =========================================================================
